@@ -174,6 +174,8 @@ def run_property(prop, tier, rule_fn, floor, meta):
                 rule_fn(rep, fl)
             except AnchorMissing as e:
                 rep.missing("anchor", fl, str(e))
+        if tier == "thorough" and meta.get("once_thorough"):
+            meta["once_thorough"](rep)
     except Exception as e:  # build failure, internal error: fail closed
         import traceback
         fatal = "%s: %s" % (type(e).__name__, e)
@@ -197,6 +199,8 @@ def run_property(prop, tier, rule_fn, floor, meta):
     if fatal is None:
         for cfg, n in per_cfg.items():
             fl_name = cfg.split("/")[-1]
+            if fl_name not in ("sync", "async"):
+                continue
             need = floor.get(fl_name, 0)
             if n < need:
                 floor_fail.append("%s: %d rule instances < floor %d" % (cfg, n, need))
